@@ -74,7 +74,21 @@ fn yuv_source_event<T: Pixel>(sh: &mut Shards, call: &str, c: &Cfg, st: u8, w: u
         (0..cw * ch).map(|_| rng.below(maxc + 1) as u16).collect(),
     ];
     let pads_a = [(0usize, 0usize); 3];
-    let pads_b = [(rng.below(33) as usize, rng.below(33) as usize), (rng.below(33) as usize, rng.below(33) as usize), (rng.below(33) as usize, rng.below(33) as usize)];
+    // plane layouts: random paddings, and (every other image) one of the special shapes: horizontal-only, vertical-only,
+    // one plane padded and the others tight
+    const LAYOUTS: [[(usize, usize); 3]; 6] = [
+        [(17, 0), (0, 0), (5, 0)],
+        [(0, 3), (0, 0), (0, 1)],
+        [(0, 0), (0, 0), (16, 0)],
+        [(0, 0), (16, 0), (0, 0)],
+        [(1, 0), (0, 2), (33, 0)],
+        [(0, 0), (7, 7), (0, 0)],
+    ];
+    let pads_b = if rng.below(2) == 0 {
+        LAYOUTS[rng.below(6) as usize]
+    } else {
+        [(rng.below(33) as usize, rng.below(33) as usize), (rng.below(33) as usize, rng.below(33) as usize), (rng.below(33) as usize, rng.below(33) as usize)]
+    };
     let ya = build_yuv::<T>(&planes, w, h, c, pads_a, None);
     let yb = build_yuv::<T>(&planes, w, h, c, pads_b, Some((maxc as u16).min(if st == 8 { 255 } else { maxc as u16 })));
     let mut s = String::new();
@@ -192,7 +206,7 @@ fn to_yuv_event<T: Pixel>(sh: &mut Shards, call: &str, c: &Cfg, st: u8, w: usize
 }
 
 fn sizes(o: &Opts) -> Vec<(usize, usize)> {
-    let mut v = vec![(1, 1), (2, 1), (1, 2), (3, 2), (2, 3), (4, 4), (5, 3), (7, 5), (8, 8), (12, 12), (13, 7), (16, 16), (33, 2), (2, 33), (64, 1), (1, 64)];
+    let mut v = vec![(1, 1), (2, 1), (1, 2), (3, 2), (2, 3), (4, 4), (5, 3), (7, 5), (8, 8), (12, 12), (13, 7), (16, 16), (33, 2), (2, 33), (64, 1), (1, 64), (64, 3), (32, 5), (128, 2), (64, 4)];
     if o.thorough {
         for w in 1..=24 {
             for h in [1usize, 2, 3, 5, 8, 13, 24] {
@@ -230,6 +244,12 @@ pub fn gen_c11(sh: &mut Shards, o: &Opts) -> serde_json::Value {
                     if c.n == 8 && k % 2 == 1 {
                         yuv_source_event::<u8>(sh, call, &c, 8, w, h, &mut rng);
                     } else {
+                        yuv_source_event::<u16>(sh, call, &c, 16, w, h, &mut rng);
+                    }
+                    if w % 32 == 0 && call == "YuvToRgb" {
+                        // widths that make a plane exactly contiguous (stride == width): both sample types
+                        let c8 = Cfg { n: 8, ..c };
+                        yuv_source_event::<u8>(sh, call, &c8, 8, w, h, &mut rng);
                         yuv_source_event::<u16>(sh, call, &c, 16, w, h, &mut rng);
                     }
                     n += 1;
